@@ -7,7 +7,9 @@ mod grp;
 mod reps;
 mod s_codec;
 mod s_group;
+mod s_machine;
 mod s_pair;
+mod s_tower;
 mod s_conv;
 mod s_field;
 
@@ -79,6 +81,9 @@ fn main() {
         "sqrt" => s_codec::run_sqrt(&a, &mut out),
         "gt" => s_pair::run_gt(&a, &mut out),
         "pairing" => s_pair::run_pairing(&a, &mut out),
+        "gmachine" => s_machine::run_gmachine(&a, &mut out),
+        "fmachine" => s_machine::run_fmachine(&a, &mut out),
+        "tower" => s_tower::run(&a, &mut out),
         "group" => s_group::run_group(&a, &mut out),
         "encode" => s_group::run_encode(&a, &mut out),
         s => {
